@@ -92,7 +92,13 @@ def decode(data: bytes) -> dict:
                     vals[pname] = ["flag", True]
             elif d.p(0.5):  # opt / optpos
                 vals[pname] = gen_value(d, cmd, pname)
-        case["items"].append({"t": "cmd", "cmd": cmd, "vals": vals, "short": d.p(0.4)})
+        it = {"t": "cmd", "cmd": cmd, "vals": vals, "short": d.p(0.4)}
+        r3 = d.i(0, 9)
+        if r3 == 0:
+            it["abbr"] = True
+        elif r3 == 1:
+            it["repeat"] = True
+        case["items"].append(it)
     return case
 
 
@@ -117,7 +123,17 @@ def render(item: dict, table: dict) -> str:
             pos.extend(texts)
         else:
             flag = SHORT.get(cmd, {}).get(pname) if item.get("short") else None
-            opts.append(flag or "--" + pname.replace("_", "-"))
+            long = "--" + pname.replace("_", "-")
+            if flag is None and item.get("abbr"):
+                # argparse accepts any unambiguous prefix of a long option
+                others = ["--" + p2.replace("_", "-") for p2, k2 in table[cmd] if p2 != pname and k2 in ("opt", "flag")] + ["--help"]
+                for ln in range(3, len(long)):
+                    if not any(o.startswith(long[:ln]) for o in others):
+                        long = long[:ln]
+                        break
+            if item.get("repeat") and typ in ("int", "str") and kind == "opt":
+                opts.extend([flag or long, "7" if typ == "int" else "decoy"])     # given twice: the last one counts
+            opts.append(flag or long)
             opts.extend(texts)
     # options first or last -- both are legal for argparse; negative numbers after options stay positionals
     return " ".join(parts + opts + pos) if item.get("short") else " ".join(parts + pos + opts)
